@@ -505,6 +505,16 @@ impl Optimizer {
             return None;
         }
 
+        // Every condition must connect two of the collected relations; one that speaks
+        // about another variable (the source of an expand, say) would be lost
+        let is_relation = |v: &String| relations.iter().any(|(name, _)| name == v);
+        if !join_conditions
+            .iter()
+            .all(|c| is_relation(&c.left_var) && is_relation(&c.right_var))
+        {
+            return None;
+        }
+
         Some((relations, join_conditions))
     }
 
@@ -519,11 +529,19 @@ impl Optimizer {
     ) -> bool {
         match op {
             LogicalOperator::Join(join) => {
+                // Only inner and cross joins may be reordered (the rebuilt tree
+                // consists of inner joins)
+                if !matches!(join.join_type, JoinType::Inner | JoinType::Cross) {
+                    return false;
+                }
+
                 // Collect from both sides
                 let left_ok = self.collect_join_tree(&join.left, relations, conditions);
                 let right_ok = self.collect_join_tree(&join.right, relations, conditions);
 
-                // Add conditions from this join
+                // Add conditions from this join; a condition that cannot be
+                // attributed to two variables cannot be carried over
+                let mut all_extracted = true;
                 for cond in &join.conditions {
                     if let (Some(left_var), Some(right_var)) = (
                         self.extract_variable_from_expr(&cond.left),
@@ -535,10 +553,12 @@ impl Optimizer {
                             left_expr: cond.left.clone(),
                             right_expr: cond.right.clone(),
                         });
+                    } else {
+                        all_extracted = false;
                     }
                 }
 
-                left_ok && right_ok
+                left_ok && right_ok && all_extracted
             }
             LogicalOperator::NodeScan(scan) => {
                 relations.push((scan.variable.clone(), op.clone()));
@@ -549,8 +569,18 @@ impl Optimizer {
                 true
             }
             LogicalOperator::Filter(filter) => {
-                // A filter on a base relation is still part of the join tree
-                self.collect_join_tree(&filter.input, relations, conditions)
+                // A filter on a base relation is still part of the join tree: the
+                // filtered relation (filter included) is the relation
+                let mut inner = Vec::new();
+                let mut inner_conditions = Vec::new();
+                if !self.collect_join_tree(&filter.input, &mut inner, &mut inner_conditions)
+                    || inner.len() != 1
+                    || !inner_conditions.is_empty()
+                {
+                    return false;
+                }
+                relations.push((inner.remove(0).0, op.clone()));
+                true
             }
             LogicalOperator::Expand(expand) => {
                 // Expand is a special case - it's like a join with the adjacency
